@@ -986,6 +986,39 @@ def gen_forced(pid, rng, kind, world, pick, nth, second=None, force_capture=Fals
     return None
 
 
+def gen_capture_grid(pid, rng, kind, world, ops, nbranches=3, per_step=3):
+    """Every action of `nbranches` branches carries a block operand, in two steps, all from one operator family that maps
+    `world` to itself (e.g. the error-side operators over Result): whichever way hoisted bindings are named, every
+    (branch, position) pair of both steps is used at once."""
+    flavour = "async" if kind in ASYNC_KINDS else "sync"
+    p = Prog()
+    p.id = pid
+    p.kind = kind
+    g = G(rng, flavour)
+    for b in range(nbranches):
+        lo = g.next_id
+        fn, nshapes = SRC[world]
+        sid = g.nid()
+        p.srcs.append((sid, nshapes))
+        ms = []
+        g.force_capture = True
+        for i in range(2 * per_step):
+            ts = [t for t in g.transitions(world, False) if t[0] in ops and t[2] == world]
+            if not ts:
+                return None
+            ms.append(g.mk(rng.choice(ts), deferred=(i == per_step and flavour == "sync")))
+        g.force_capture = False
+        p.branches.append(("%s(%d)" % (fn, sid), 0, world, ms, (lo, g.next_id)))
+    p.max_id = g.next_id + 1
+    for (_, _, _, ms, _) in p.branches:
+        for mm in ms:
+            p.tags.add("op:" + mm.tag)
+    p.tags |= {"cap", "forced", "sp:capture_grid"}
+    for sname in g.spellings:
+        p.tags.add("sp:" + sname)
+    return p
+
+
 WORLDS = ["O", "OO", "OP", "R", "RR", "I", "IP", "IE", "IO", "IR", "II", "P", "V", "B", "U", "OV", "RV"]
 
 
@@ -1100,6 +1133,13 @@ def build_corpus(tier, seed):
                 for attempt in range(6):
                     if keep(gen_forced(0, rng, next_kind() if flav == "sync" else next_async_kind(), w, picke, 0)):
                         break
+    # (a4) capture grids: three branches x three positions x two steps with a block operand on every action
+    for kind in ("join", "join_spawn", "spawn", "join"):
+        for world, ops in (("R", ("or", "or_else", "map_err")), ("R", ("map", "and_then", "or", "map_err")), ("O", ("map", "and_then", "filter", "or", "or_else")),
+                           ("I", ("map", "filter", "filter_map", "chain")), ("O", ("or", "or_else", "zip") if False else ("or", "or_else"))):
+            for attempt in range(3):
+                if keep(gen_capture_grid(0, rng, kind, world, ops)):
+                    break
     # (b3) every wrapper around a lone `->` whose callee is a call expression
     for flav, table in (("sync", G.WRAPS), ("async", G.AWRAPS)):
         for (w, op), ent in table.items():
